@@ -39,7 +39,7 @@ impl Engine for C06 {
             records[i].seq = gen_seq(rng, len, Alpha::Mixed);
         }
         let container = gen_container(rng, &records, true, true);
-        let io = gen_io(rng);
+        let io = gen_io(rng, true);
         let workers = if rng.chance(1, 2) { 0 } else { rng.usize(2, 8) };
         let sched = Sched::draw(rng, 4 * records.len() as u64 + 8);
         Case {
